@@ -31,9 +31,9 @@ def check(cx):
     w = M.w
     fan = M.fanouts()
 
-    r1 = cx.rule('R1.1', 'audience provenance of every send', floor=7, kind='provenance')
-    r2 = cx.rule('R1.2', 'sender skipped in channel fan-outs', floor=6, kind='required-guard')
-    r5 = cx.rule('R1.5', 'attribution and payload', floor=7, kind='provenance')
+    r1 = cx.rule('R1.1', 'audience provenance of every send', floor=3, kind='provenance')
+    r2 = cx.rule('R1.2', 'sender skipped in channel fan-outs', floor=2, kind='required-guard')
+    r5 = cx.rule('R1.5', 'attribution and payload', floor=4, kind='provenance')
     want_payload = sym.mk_ite(Atom(('truth', NOTICE)),
                               ('fmt', ('NOTICE ', ('arg', 0), ' :', ('arg', 1)), T_EL, TEXT),
                               ('fmt', ('PRIVMSG ', ('arg', 0), ' :', ('arg', 1)), T_EL, TEXT))
@@ -112,6 +112,10 @@ def check(cx):
     for i in range(len(chan_f)):
         for j in range(i + 1, len(chan_f)):
             a, b = chan_f[i], chan_f[j]
+            ua, ub = getattr(a[0], 'ev', a[0]), getattr(b[0], 'ev', b[0])
+            if ua is ub and _iterates_set(prog, ua):
+                r4.instance('%s vs %s: one fan-out over a de-duplicating set' % (a[3] or 'members', b[3] or 'members'))
+                continue
             fa, _ = M.abstract(a[0].pc)
             fb, _ = M.abstract(b[0].pc)
             # drop per-element facts: they talk about different loop variables
@@ -186,6 +190,15 @@ def check(cx):
         if shown.get(ch) != {FLAG_FIELD[setname]}:
             r7.violation('ChannelUserModes::to_string|prefix-%s' % setname, "prefix '%s' is displayed for flags %s, expected %s"
                          % (ch, sorted(shown.get(ch, [])), FLAG_FIELD[setname]), loc=cx.fn('to_string', 'ChannelUserModes'))
+
+
+def _iterates_set(prog, e):
+    """does the innermost loop of this send iterate a set-typed collection?"""
+    for (kind, hid, iv, node) in reversed(e.loops):
+        if iv is not None and iv[0] == 'local':
+            ty = prog.ty(node['iter']) if node.get('k') == 'For' else (prog.ty(node['args'][0]) if node.get('args') else '')
+            return 'HashSet<' in ty or 'BTreeSet<' in ty or 'hash::set' in ty or 'hash_set' in ty
+    return False
 
 
 def _strip_elem(f):
